@@ -332,6 +332,81 @@ impl std::io::Write for ChunkWriter {
     }
 }
 
+/// a non-blocking sink with a bounded buffer: accepts `room` bytes, then answers WouldBlock once, then accepts everything
+struct WouldBlockWriter {
+    room: usize,
+    blocked: bool,
+    buf: Vec<u8>,
+}
+impl std::io::Write for WouldBlockWriter {
+    fn write(&mut self, b: &[u8]) -> std::io::Result<usize> {
+        if self.blocked {
+            self.buf.extend_from_slice(b);
+            return Ok(b.len());
+        }
+        if self.room == 0 {
+            self.blocked = true;
+            return Err(std::io::Error::new(std::io::ErrorKind::WouldBlock, "send buffer full"));
+        }
+        let n = b.len().min(self.room);
+        self.buf.extend_from_slice(&b[..n]);
+        self.room -= n;
+        Ok(n)
+    }
+    fn flush(&mut self) -> std::io::Result<()> {
+        Ok(())
+    }
+}
+
+/// `threads` threads encode the same families at the same moment, each into its own buffer, `rounds` times: every output must be
+/// the one a lone encode produces
+fn encode_concurrently(fams: &[MetricFamily], text: bool, threads: usize, rounds: usize) -> Value {
+    let reference: Vec<u8> = {
+        let mut b = vec![];
+        let r = if text { TextEncoder::new().encode(fams, &mut b) } else { pb_encode_into(fams, &mut b) };
+        if r.is_err() { return json!({"err": {"kind": "Msg", "msg": "the lone encode failed"}}); }
+        b
+    };
+    let fams: Arc<Vec<MetricFamily>> = Arc::new(fams.to_vec());
+    let barrier = Arc::new(std::sync::Barrier::new(threads));
+    let reference = Arc::new(reference);
+    let hs: Vec<_> = (0..threads).map(|_| {
+        let (fams, barrier, reference) = (fams.clone(), barrier.clone(), reference.clone());
+        std::thread::spawn(move || {
+            let mut bad: Option<String> = None;
+            let mut nbad = 0usize;
+            for _ in 0..rounds {
+                barrier.wait();
+                let mut b = vec![];
+                let r = if text { TextEncoder::new().encode(&fams, &mut b) } else { pb_encode_into(&fams, &mut b) };
+                if r.is_err() || b != *reference {
+                    nbad += 1;
+                    if bad.is_none() { bad = Some(hex(&b[..b.len().min(64)])); }
+                }
+            }
+            (nbad, bad)
+        })
+    }).collect();
+    let mut nbad = 0;
+    let mut first = Value::Null;
+    for h in hs {
+        match h.join() {
+            Ok((n, b)) => { nbad += n; if first.is_null() { if let Some(x) = b { first = json!(x); } } }
+            Err(_) => { nbad += 1; if first.is_null() { first = json!("thread panicked"); } }
+        }
+    }
+    okv(json!({"encodes": threads * rounds, "differing": nbad, "first_differing_head": first, "reference_len": reference.len()}))
+}
+
+#[cfg(feature = "protobuf")]
+fn pb_encode_into(fams: &[MetricFamily], b: &mut Vec<u8>) -> Result<()> {
+    ProtobufEncoder::new().encode(fams, b)
+}
+#[cfg(not(feature = "protobuf"))]
+fn pb_encode_into(_fams: &[MetricFamily], _b: &mut Vec<u8>) -> Result<()> {
+    Ok(())
+}
+
 /// a user-defined vector builder (the documented extension point MetricVec::create)
 #[derive(Clone)]
 pub struct UserGaugeBuilder;
@@ -949,6 +1024,13 @@ pub fn call(env: &mut Env, c: &Value) -> Value {
                     let mut w = FailingWriter { after: c.get("after").and_then(|x| x.as_u64()).unwrap_or(0) as usize, n: 0 };
                     res_unit(enc.encode(&fams, &mut w))
                 }
+                "wouldblock" => {
+                    let mut w = WouldBlockWriter { room: c.get("after").and_then(|x| x.as_u64()).unwrap_or(0) as usize, blocked: false, buf: vec![] };
+                    match enc.encode(&fams, &mut w) {
+                        Ok(()) => okv(json!({"hex": hex(&w.buf), "blocked": w.blocked})),
+                        Err(e) => { let mut j = err_json(&e); j["blocked"] = json!(w.blocked); j }
+                    }
+                }
                 "chunked" => {
                     let mut w = ChunkWriter { k: c.get("after").and_then(|x| x.as_u64()).unwrap_or(1) as usize, buf: prefix.as_bytes().to_vec() };
                     match enc.encode(&fams, &mut w) {
@@ -979,11 +1061,22 @@ pub fn call(env: &mut Env, c: &Value) -> Value {
                     Err(e) => err_json(&e),
                 };
             }
+            if mode == "wouldblock" {
+                let mut w = WouldBlockWriter { room: c.get("after").and_then(|x| x.as_u64()).unwrap_or(0) as usize, blocked: false, buf: vec![] };
+                return match enc.encode(&fams, &mut w) {
+                    Ok(()) => okv(json!({"hex": hex(&w.buf), "blocked": w.blocked})),
+                    Err(e) => { let mut j = err_json(&e); j["blocked"] = json!(w.blocked); j }
+                };
+            }
             let mut buf: Vec<u8> = vec![];
             match enc.encode(&fams, &mut buf) {
                 Ok(()) => okv(json!({"hex": hex(&buf)})),
                 Err(e) => { let mut j = err_json(&e); j["written"] = json!(hex(&buf)); j }
             }
+        }
+        "encode_concurrent" => {
+            let fams = families_of(env, c);
+            encode_concurrently(&fams, c.get("enc").and_then(|x| x.as_str()) == Some("text"), c.get("threads").and_then(|x| x.as_u64()).unwrap_or(4) as usize, c.get("rounds").and_then(|x| x.as_u64()).unwrap_or(100) as usize)
         }
         "families_json" => okv(families_json(&families_of(env, c))),
         _ => {
